@@ -21,14 +21,25 @@ let handle kind fs obs =
   match kind with
   | "parse" ->
     let data = nlist_of_hex (field fs "data") in
-    let mobs = (match blocks data, fold_pairs data with
+    (* the buffer sits [place] bytes behind a 16-aligned address: the checked twin (Model/Checked.v) takes the address of the
+       directory, tests it like BaseRelocs::parse and checks every raw reference of the block walk against it *)
+    let place = n_of_string (field fs "place") in
+    let misaligned = (int_of_n place) mod 4 <> 0 in
+    let mobs = (match reloc_parse_chk place data, fold_pairs_chk place data with
       | Ok bs, Ok flat -> Printf.sprintf "blocks=%s iter=%s fold=%s" (show_blocks bs) (show_pairs (flat_spec bs)) (show_pairs flat)
       | Fault f, _ | _, Fault f -> "!fault:" ^ show_fault f
+      | Err EMisaligned, _ -> "!err Misaligned"
       | _ -> "!err") in
-    let ok = (not bang) &&
+    (* oracle: a directory that is not dword aligned must be refused with Misaligned and nothing else; an aligned one must
+       satisfy the statement of C14 - and the twin must agree with the unchecked model there (theorem C02_checked_reloc_parse) *)
+    let twin_is_model = (match reloc_parse_chk place data, blocks data with
+      | Ok a, Ok b -> a = b | Err EMisaligned, _ -> misaligned | _ -> false) in
+    let ok = if misaligned then obs = "!err Misaligned" && twin_is_model else
+      (not bang) && twin_is_model &&
       parse_ok data (parse_blocks (field ofs "blocks")) (parse_pairs (field ofs "iter")) (parse_pairs (field ofs "fold")) in
     let nb = (match blocks data with Ok bs -> List.length bs | _ -> 0) in
-    (mobs, ok, nb >= 1, Printf.sprintf "parse,blocks%s" (if nb = 0 then "0" else if nb = 1 then "1" else if nb < 5 then "2-4" else "5+"), None)
+    (mobs, ok, nb >= 1, Printf.sprintf "parse,%sblocks%s" (if misaligned then "misaligned," else "")
+       (if nb = 0 then "0" else if nb = 1 then "1" else if nb < 5 then "2-4" else "5+"), None)
   | "build" ->
     let rvas = List.map n_of_string (split_on ',' (field fs "rvas")) in
     let types = List.map n_of_string (split_on ',' (field fs "types")) in
